@@ -495,6 +495,15 @@ def _job_rsvframes(a, env):
                     ("control-uncompressed-fragments", [F.encode(1, b"He", fin=False, mask=mask),
                                                         F.encode(0, b"llo", mask=mask)], True),
                 ]
+                # the negotiated extension defines RSV1 only: every other reserved-bit pattern fails the
+                # connection on every frame kind, with or without RSV1 next to it
+                for rsv in (1, 2, 3, 5, 6, 7):
+                    cases += [
+                        ("ping-rsv%d" % rsv, [F.encode(9, b"p", rsv=rsv, mask=mask)], False),
+                        ("text-rsv%d" % rsv, [F.encode(1, b"Hello", rsv=rsv, mask=mask)], False),
+                        ("cont-rsv%d" % rsv, [F.encode(1, b"He", fin=False, mask=mask),
+                                              F.encode(0, b"llo", rsv=rsv, mask=mask)], False),
+                    ]
                 for name, frames, ok in cases:
                     for coalesce in (True, False):
                         pair = ws.Pair(copts={"perMessageCompressionOffers": [offer],
